@@ -149,6 +149,7 @@ bool Hist::opFrame(int how) {
     }
     if (!contentless && rng.chance(wild ? 45 : 28)) { static const int doc[] = {1, 2, 3, 4, 5, 6, 7}; static const int wl[] = {8, 9, 10, 11, 12, 13, 14};
         dev = (wild && rng.chance(50)) ? wl[rng.below(7)] : doc[rng.below(7)];
+        if (!wild && o.profile == "c06" && used >= 2 && rng.chance(25)) dev = 10;     // all declared points present, listed in another order: accepted by the documented checks, must be stored as given
         if (!wild && used == 0 && dev >= 1 && dev <= 4) dev = 0; if (!wild && aused == 0 && (dev == 5 || dev == 6)) dev = 0; if (used == 0 && aused == 0 && n == 0 && !wild) dev = 14; }
     if (forceSub >= 0 && dev != 0 && dev != 5 && dev != 6) dev = rng.chance(50) ? 5 : 6;
     bool undeclaredPlusBadAnalogs = (!wild && used == 0 && aused > 0 && prev.h.sub > 0 && n == 0 && float0(prev, "POINT", "RATE") != 0.0f && rng.chance(12));   // new points arrive together with a refused analog part
